@@ -7,7 +7,29 @@ import "strings"
 var rtModule = Module{Dir: "runtime", Patterns: []string{"./internal/runtime"}}
 
 func init() {
-	PropConfigs["C03"] = &PropConfig{ID: "C03", Modules: []Module{rtModule}, Specs: []string{"common.smt2"}, Extra: c03CompilerGoals}
+	PropConfigs["C03"] = &PropConfig{ID: "C03", Modules: []Module{rtModule}, Specs: []string{"common.smt2"},
+		// compiler side: index/slice/make/type-assertion emission cases, plus the integer
+		// division and remainder cases of C02 (division by zero is one of C03's panics: the
+		// guard must be emitted at every division, also the second one in a function)
+		Extra: func(ck *Checker, rep *Report, opts *Options) []*Goal {
+			ret := c03CompilerGoals(ck, rep, opts)
+			if opts.OnlyFn != "" && !strings.Contains("ssa.Builder.BinOp", opts.OnlyFn) {
+				return ret
+			}
+			sub := &Report{Property: rep.Property, Extra: map[string]interface{}{}}
+			for _, g := range c02Goals(ck, sub, opts) {
+				if strings.Contains(g.Oblig, "[op=QUO,") || strings.Contains(g.Oblig, "[op=REM,") {
+					ret = append(ret, g)
+				}
+			}
+			rep.Broken = append(rep.Broken, sub.Broken...)
+			for _, f := range sub.Funcs {
+				if f == "ssa.Builder.BinOp" {
+					rep.Funcs = append(rep.Funcs, f)
+				}
+			}
+			return ret
+		}}
 	PropConfigs["C11"] = &PropConfig{ID: "C11", Modules: []Module{{Dir: "runtime", Patterns: []string{"./internal/lib/runtime"}}}, Specs: []string{"common.smt2"}, Post: c11Schedules,
 		Undecided: []string{
 			"liveness (admission of waiters, wake-ups) beyond the safety formulations in the contracts: bounded schedule exploration only (at most 4 threads, capped enumeration)",
